@@ -89,6 +89,8 @@ type SessSpec struct {
 	Rollbacks    map[int]uint64 `json:"rollbacks,omitempty"`     // vb -> R: the first stream request of vb is answered ROLLBACK(R)
 	RollbackAt   map[int]int    `json:"rollback_at,omitempty"`   // vb -> which request (1-based) gets the ROLLBACK answer (default 1)
 	RollbackAlso map[int]int    `json:"rollback_also,omitempty"` // vb -> a second request index that is answered ROLLBACK(R) as well
+	// RollbackAlsoLower: that second answer names R/2 instead of R
+	RollbackAlsoLower bool `json:"rollback_also_lower,omitempty"`
 	// HoldConsAtStart: the consumer blocks inside its very first delivery (until "releasecons"); installed before Start()
 	HoldConsAtStart bool `json:"hold_cons_at_start,omitempty"`
 	// FailoverLogDelayMs: the node answers failover-log requests that much later
@@ -584,6 +586,9 @@ func RunSession(spec *SessSpec) *Trace {
 				return nil
 			}
 			rolledBack[int(r.VB)] = true
+			if hasAlso && nreq[int(r.VB)] == also && spec.RollbackAlsoLower && R > 0 {
+				R = R / 2 // the second answer names an earlier point than the first
+			}
 			b := make([]byte, 8)
 			for i := 0; i < 8; i++ {
 				b[7-i] = byte(R >> (8 * uint(i)))
@@ -851,6 +856,19 @@ func RunSession(spec *SessSpec) *Trace {
 					close(reqHoldCh)
 				case "sleep":
 					time.Sleep(time.Duration(st.Ms) * time.Millisecond)
+				case "observe": // as in the main script
+					uu := uint64(st.Ms)
+					if uu == 0 {
+						uu = env.Sim.FailoverCopy(uint16(st.VB))[0].UUID
+					}
+					env.Sim.SetObserve(uint16(st.VB), st.N, uu, uint64(st.St))
+					env.Log.Add(evlog.Rec{K: "ctl.observe", VB: st.VB, A: uu, B: uint64(st.N), Seq: uint64(st.St)})
+				case "waitrounds":
+					vbw, want := st.VB, st.N
+					base := len(env.Log.Filter(func(r evlog.Rec) bool { return r.K == "sim.tx" && r.Op == cbsim.OpObserveSeqno && r.VB == vbw && r.B == 0 }))
+					hx.WaitFor(8*time.Second, func() bool {
+						return len(env.Log.Filter(func(r evlog.Rec) bool { return r.K == "sim.tx" && r.Op == cbsim.OpObserveSeqno && r.VB == vbw && r.B == 0 }))-base >= want
+					})
 				}
 			}
 		}
